@@ -61,7 +61,7 @@ Proof. exact array_index_safe_exact. Qed.
 Print Assumptions C05_array_index_safe_guard_exact.
 
 Theorem C05_day_month_ctor_guard_exact : forall d, 0 <= d < 4294967296 ->
-  day_ctor d = (d <? 255) /\ month_ctor d = (d <? 255).
+  day_ctor d = (d <=? 255) /\ month_ctor d = (d <=? 255).
 Proof. intros d H. split; apply day_ctor_exact; exact H. Qed.
 Print Assumptions C05_day_month_ctor_guard_exact.
 
